@@ -84,10 +84,16 @@ def build(case, tmp):
     x_blocks = copy.deepcopy(case["x"])
     extra = []
     after = "Outer after."
+    after_nested = ""
     if case.get("outer_use"):
         extra = [{"t": "footdef", "label": "fx", "ch": [{"t": "para", "inl": [{"t": "text", "s": "footnote body fx"}]}]},
                  {"t": "target", "name": "tgx"}, {"t": "para", "inl": [{"t": "text", "s": "target paragraph"}]}]
         after = "Outer after [^fx] and [](#tgx) and [t](#tgx)."
+        # a link reference definition made inside X is used by a *later nested parse* (the body of a directive that
+        # follows): nested parses share one environment, so this resolves whether X was written in place or wrapped.
+        # (Its use by the *main* parse is the recorded finding 'outer_refdef' below.)
+        extra = extra + [{"t": "refdef", "label": "nrx", "dest": "https://e.org/nrx"}]
+        after_nested = "\n\n```{note}\nNested after [link text][nrx] and [nrx] and [^fx].\n```"
     if case.get("outer_refdef"):
         # known-finding class, never drawn by the generators (only replayed from known/)
         extra = extra + [{"t": "refdef", "label": "rx", "dest": "https://e.org/rx"}]
@@ -112,6 +118,7 @@ def build(case, tmp):
         blocks = [{"t": "directive", "name": layer["name"], "arg": "Wrap Title" if layer["name"] == "admonition" else "",
                    "raw": None, "opts": [("class", "wrapcls")] if layer["opts"] else [], "optstyle": layer["optstyle"],
                    "blank": layer["blank"], "fence": layer["fence"], "len": None, "ch": blocks}]
+    after = after + after_nested
     w_text = "Outer before.\n\n" + mdgen.render(copy.deepcopy(blocks)).rstrip("\n") + "\n\n" + after + "\n"
     i_text = "Outer before.\n\n" + x_text + "\n\n" + after + "\n"
     return w_text, i_text, settings_w, settings, len(case["layers"])
